@@ -1,10 +1,10 @@
 SPECIFICATION Spec
 CONSTANTS
-  NP = 2
-  NV = 2
+  NP = 3
+  NV = 1
   NPA = 2
-  PageVals <- PagesTwo
-  Offs = {0}
+  PageVals <- PagesSmall
+  Offs = {0, 4095}
   Snapshots = TRUE
 VIEW View
 ACTION_CONSTRAINT Emit
